@@ -4,8 +4,9 @@
 set -e
 B="$1"; shift
 SIM="$(dirname "$0")"
+REPO="${VERIF_REPO:-/repo}"
 exec g++ -std=c++17 -O1 -g -Wall -Wno-unused-function -Wno-unused-variable \
   -DSEXP_STATIC_LIBRARY=0 -DSEXP_USE_DL=1 -DSEXP_USE_INTTYPES=0 -DSEXP_USE_NTPGETTIME=1 -DSEXP_VERIF_SIM=1 \
-  -I/repo/include -I"$B/include" "$@" \
+  -I"$REPO/include" -I"$B/include" "$@" \
   "$SIM/chibisim.cpp" -o "$B/chibisim" \
   -L"$B" -lchibi-scheme -Wl,-rpath,"$B" -rdynamic -lpthread -ldl
